@@ -796,7 +796,7 @@ MANIFEST = {
     "(branch set of <= 3 names [thorough: <= 5] from a 20-name universe over majors 7/8, minors 0-2, patch and suffix branches, master, main) x 67 versions "
     "(~9*10^4 cases in quick, ~1.5*10^6 in thorough, exhaustive) and on ~10^6 (quick) / ~3*10^7 (thorough) random sets incl. minor/patch 0, unrelated names, unknown and junk versions; in addition "
     "~380 (quick) / ~4000 (thorough) real git repositories (local-only, fresh clone, existing clone + fetch with branches added/removed remotely, offline clone; "
-    "v-tags) are driven through the real RallyRepository.update and the checked-out branch / tag / raised error is compared with the same reference. "
+    "v-tags; unrelated namespaced branches such as backport/8.3 whose last path segment would outrank the right answer) are driven through the real RallyRepository.update and the checked-out branch / tag / raised error is compared with the same reference. "
     "Holds on the cases produced, not beyond.",
     "note": "Trusts the reference written from docs/track.rst and the statement, git 2.39 + fast-import for building repositories. Where the documentation is silent "
     "(master vs nothing with only older patch-level branches; master demanded but absent; suffix-without-patch names; non-version strings; precedence among v-tags) "
